@@ -613,7 +613,9 @@ pub fn plain_request(opts: &Opts, rest: &[Tok]) -> bool {
         }
         let mut cmds = Vec::new();
         level_commands(&level.root, &mut cmds);
-        let next = cmds.into_iter().find_map(|c| match c {
+        // (a word that names more than one command of the level is settled by bpaf's rules for
+        // alternatives, which are not C11's business)
+        let mut hits = cmds.into_iter().filter_map(|c| match c {
             Shape::Cmd {
                 name,
                 shorts,
@@ -632,9 +634,9 @@ pub fn plain_request(opts: &Opts, rest: &[Tok]) -> bool {
             }
             _ => None,
         });
-        level = match next {
-            Some(l) => l,
-            None => return false,
+        level = match (hits.next(), hits.next()) {
+            (Some(l), None) => l,
+            _ => return false,
         };
         if !gen::help_tokens(level).contains(last) {
             return false;
